@@ -68,6 +68,8 @@ type World struct {
 	UseSysRoot  bool      // C15: the chain hangs under the process's host-trusted root
 	InvBase     time.Time // reference instant of invalidity dates when no signing time is supplied (zero = stBase)
 	CloneOf     *World    // soak: same chain and URLs as this world, other contents
+	EKUVariant  int       // ChainTSALeafEKU: 0 one unknown OID only, 1 no EKU extension, 2 timeStamping + codeSigning, 3 timeStamping non-critical
+	SiblingLeaf bool      // soak: the leaf is ANOTHER certificate of the same CA (same URLs), listed as "other serial" in the original's CRLs
 	// materialised
 	OtherCA     *Cert
 	Unrelated   *Key
@@ -158,6 +160,9 @@ func (p *RevProfile) genFault(t *Tape, sc *RevScenario, kind string) Fault {
 	switch k {
 	case FStatus:
 		f.Param = []int{404, 500, 503, 204, 301, 403, 206, 304, 201, 429}[t.Choose(10)]
+		if p.BigBodyPct > 0 && t.Bool(12) {
+			f.Param += 1000 // with an endless error page
+		}
 	case FRedirect:
 		f.Param = []int{302, 301, 303, 307, 308}[t.Weighted(40, 15, 15, 15, 15)]
 	case FConnErr:
@@ -449,12 +454,22 @@ func GenRevScenario(t *Tape, p *RevProfile) *RevScenario {
 func (p *RevProfile) cloneWorld(t *Tape, sc *RevScenario, o *World, k int) *World {
 	w := &World{ID: o.ID + k, Purpose: o.Purpose, Entry: o.Entry, HasST: o.HasST, STFrac: o.STFrac, ST: o.ST, CloneOf: o}
 	faulty := sc.Config != 0
+	// sometimes the next validation is for a sibling of the leaf: another
+	// certificate of the same CA with the same URLs, whose serial number the
+	// original's CRLs list among the "other" entries. Its sources keep their
+	// answers, so that what the library cached for the first leaf is consulted
+	// for the second.
+	w.SiblingLeaf = len(o.Certs) > 1 && !o.Certs[0].LongSerial && t.Bool(25)
+	keep := w.SiblingLeaf
 	for _, ocp := range o.Certs {
 		cp := &CertPlan{Pos: ocp.Pos, KeyKind: ocp.KeyKind, LongSerial: ocp.LongSerial, Serial: ocp.Serial, NoCRLSign: ocp.NoCRLSign, Freshest: ocp.Freshest}
+		if w.SiblingLeaf && ocp.Pos == 0 {
+			cp.Serial = new(big.Int).Add(ocp.Serial, big.NewInt(5000))
+		}
 		truth := t.Weighted(55, 30, 5, 10)
 		for _, os := range ocp.OCSP {
 			s := &OCSPSrc{URL: os.URL, URLKind: os.URLKind, Host: os.Host, Content: os.Content, Fault: os.Fault, Latency: os.Latency}
-			if t.Bool(45) {
+			if t.Bool(45) && !keep {
 				dev := faulty && sc.Config >= 2 && t.Bool(p.PSrcFault)
 				s.Content = p.genOCSPContent(t, sc, truth, dev)
 				s.Fault = Fault{}
@@ -473,7 +488,10 @@ func (p *RevProfile) cloneWorld(t *Tape, sc *RevScenario, o *World, k int) *Worl
 			s.BaseNum = oc.BaseNum + int64(3*k) // a newer publication
 			s.DeltaFault = append([]Fault(nil), oc.DeltaFault...)
 			s.DeltaLat = append([]time.Duration(nil), oc.DeltaLat...)
-			if t.Bool(45) {
+			if keep {
+				s.BaseNum = oc.BaseNum
+			}
+			if t.Bool(45) && !keep {
 				dev := faulty && sc.Config >= 2 && t.Bool(p.PSrcFault)
 				s.Base = p.genCRLPlan(t, sc, truth, dev, false)
 				s.BaseFault = Fault{}
@@ -534,9 +552,17 @@ func (p *RevProfile) genWorld(t *Tape, sc *RevScenario, id int) *World {
 		}
 	}
 	if p.InvalidChain > 0 && t.Bool(p.InvalidChain) {
-		w.ChainDefect = 1 + t.Choose(7)
+		w.ChainDefect = 1 + t.Choose(8)
 		if w.Entry == EValidate && w.ChainDefect == ChainWrongPurpose {
 			w.ChainDefect = ChainEmpty
+		}
+		if w.ChainDefect == ChainTSALeafEKU {
+			if w.Entry == EValidate {
+				w.ChainDefect = ChainMissingRoot
+			} else {
+				w.Purpose = 1
+				w.EKUVariant = t.Choose(4)
+			}
 		}
 	}
 	faulty := sc.Config != 0
